@@ -173,6 +173,20 @@ func main() {
 		b2, _ := json.Marshal(f2)
 		return fmt.Sprint(string(b), err, err2, string(b2))
 	}})
+	// GeoJSON documents whose positions have mixed lengths (2, 3, more): the dimension decision is
+	// taken from a map of the lengths seen and must not depend on the order that map is walked in
+	for _, doc := range []string{
+		`{"type":"LineString","coordinates":[[1,2,3],[4,5]]}`,
+		`{"type":"LineString","coordinates":[[1,2],[4,5,6],[7,8,9,10]]}`,
+		`{"type":"GeometryCollection","geometries":[{"type":"Point","coordinates":[1,2,3]},{"type":"Point","coordinates":[]},{"type":"MultiPoint","coordinates":[[4,5],[6,7,8,9,10]]}]}`,
+		`{"type":"Polygon","coordinates":[[[0,0,1],[3,0],[0,3,2,5],[0,0,1]]]}`,
+	} {
+		doc := doc
+		hs = append(hs, harness{"UnmarshalGeoJSON", doc, "", func() string {
+			g, err := geom.UnmarshalGeoJSON([]byte(doc))
+			return fmt.Sprint(g.AsText(), err)
+		}})
+	}
 	for i, h := range hs {
 		if i%shards != shard {
 			continue
